@@ -486,6 +486,7 @@ def run(tier, seed):
                 mat = sum(co * bridge.pauli_word(list(w_)) for co, w_ in c["meas"][0]["terms"])
                 ev_ = np.linalg.eigvalsh(mat)
                 mk += ":asymmetric-spectrum" if abs(ev_[0] + ev_[-1]) > 1e-9 else ":symmetric-spectrum"
+                mk += ":complex-matrix" if np.max(np.abs(np.imag(mat))) > 1e-12 else ":real-matrix"
             agg.add(f"{key}:{why}:{mk}", f"{key}: measurement {idx} ({shown['measurements'][idx] if idx < len(shown['measurements']) else '?'}): "
                     f"post(exact results of outputs) = {_show(got, idx, len(w['in_desc']))}, exact result of the input = {_show(exp, idx, len(w['in_desc']))}; {shown}",
                     {"case": c, **shown})
